@@ -65,6 +65,9 @@ fn rerun(w: &Value) -> Option<Outcome> {
         "c09_ids" => Some(c09::run(w["input"]["spec"].as_str()?, &w["input"]["map"].as_array()?.iter().map(|x| (x[0].as_str().unwrap_or("").to_string(), x[1].as_u64().unwrap_or(0) as u32)).collect::<Vec<_>>())),
         "c10_render" => Some(c10r::run(w["input"]["seed"].as_u64()?, w["input"]["layout"].as_u64()? as usize, w["input"]["kind"].as_u64()? as u8)),
         "c20_u8_table" => Some(c20::run_u8_table(w["input"]["kind"].as_str()?, w["input"]["n"].as_u64()? as usize)),
+        "c11_numflag" => Some(c11::run_numflag(w["input"]["key"].as_str()?, w["input"]["n"].as_u64()?)),
+        "c09_anchor" => Some(c09::run_anchor(w["input"]["text"].as_str()?)),
+        "c20_numbering" => Some(c20::run_numbering(w["input"]["grammar"].as_str()?)),
         "c20_u8" => Some(c20::run_u8(w["input"]["kind"].as_str()?, w["input"]["n"].as_u64()? as usize)),
         "c03_expect" => Some(c03::run(w["input"]["body"].as_str()?, w["input"]["expect"].as_u64().map(|x| x as usize), w["input"]["expectrr"].as_u64().map(|x| x as usize))),
         "c10_order" => { let d: Vec<String> = w["input"]["decls"].as_array()?.iter().filter_map(|x| x.as_str().map(|y| y.to_string())).collect(); let pm: Vec<usize> = w["input"]["perm"].as_array()?.iter().filter_map(|x| x.as_u64().map(|y| y as usize)).collect(); Some(c10::run_order(&d, w["input"]["body"].as_str()?, &pm)) }
@@ -95,6 +98,7 @@ fn search(unit: &str, tag: &str, tier: &str) -> Option<Value> {
         "c07_lr" | "c04_next" => c07::search(tag, tier),
         "c06_moves" | "c06_dijkstra" | "c06_cpct" | "c06_rank" | "c05_apply" | "c05_cactus" | "c05_traverse" => if tag.starts_with("C07") { c07::search(tag, tier).or_else(|| c06::search(tag, tier)) } else { c06::search(tag, tier).or_else(|| c07::search(tag, tier)) },
         "c12_header" => c12::search(tag, tier),
+        "c12_flags" if tag.starts_with("C11") => c11::search(tag, tier),
         "c12_lex" | "c12_flags" | "c12_unescape" | "c12_lexdef" => c12::search_lex(tier),
         "c12_yacc" | "c12_yacc2" | "c12_yacc3" => c12::search_yacc(tier),
         "c10_decls" => if tag.starts_with("C12") { c12::search_yacc(tier) } else { c10::search(tag, tier).or_else(|| c10r::search(tier)) },
@@ -108,7 +112,7 @@ fn search(unit: &str, tag: &str, tier: &str) -> Option<Value> {
         "c16_graph" => if tag.starts_with("C03") { c03::search(tag, tier) } else { c16::search(tag, tier) },
         "c03_resolve" | "c03_prodprec" => c03r::search(tag, tier),
         "c03_preclines" => c10r::search(tier).or_else(|| c03r::search(tag, tier)),
-        "c17_firsts" | "c17_follows" | "c17_haspath" | "c17_costs" | "c17_maxcost" => c17::search(unit, tag, tier),
+        "c17_firsts" | "c17_follows" | "c17_haspath" | "c17_costs" | "c17_maxcost" | "c17_sentence" => c17::search(unit, tag, tier),
         "c16_new" | "c16_codec" | "c16_queries" => c16::search(tag, tier),
         "c20_grammar" | "c20_states" => c20::search(tag, tier),
         _ => None,
